@@ -49,10 +49,16 @@ CLAIMED = {
              "deletes never reach the ring and those commands end the run; yank inserts the text at the cursor; yank-pop replaces "
              "exactly the bytes the yank inserted, by the previous slot, cyclically, and only directly after a yank or yank-pop; a "
              "kill that starts a run goes into the slot after the MOST RECENT kill wherever yank-pop has rotated to and touches "
-             "no other slot (K1 repaired). PARTIAL: the chronology of slots across many kills and yank with a count followed by "
-             "yank-pop (K2, repaired: all copies are replaced) are decided by the reference-ring oracle and the correspondence.",
+             "no other slot (K1 repaired). CHRONOLOGY (refinement): read from the most recent kill backwards the ring is a list with "
+             "a yanking pointer, and for EVERY sequence of ring operations (kills in either direction, yank, yank-pop, reset, "
+             "counted yank, start / stop of a kill) nothing panics and every answer is the list machine's: a new kill is cons "
+             "(the oldest of [cap] dropped), a kill after a kill extends the head, yank is the entry under the pointer, yank-pop "
+             "is pointer + 1 modulo the number of kills held, so j yank-pops cycle through all kills held and round again. "
+             "Which command sequences the editor turns into which ring operations (what resets, what counts as one kill run, "
+             "the byte ranges a counted yank + yank-pop replaces: K2 repaired) is the model's execute, tied to the code by the "
+             "kill stream and judged by the reference-ring oracle.",
         note=TTY_NOTE,
-        technique="Coq proof: induction over the kill run (inductive relation for pieces around the cursor), case analysis of the ring arithmetic; extracted-model differential check through a pty + reference-ring oracle"),
+        technique="Coq proof: induction over the kill run (inductive relation for pieces around the cursor), case analysis of the ring arithmetic; refinement of (slots, index, newest) to (list, pointer) with modular index arithmetic, lifted to operation sequences by induction; extracted-model differential check through a pty + reference-ring oracle"),
     "C07": dict(
         text="Theorems over the editor model: the stored history is read-only -- for EVERY input, mode, helper and binding the main "
              "loop (byte reader, keymaps, digit arguments, completion and search sub-loops, every command) returns with the "
